@@ -4,7 +4,7 @@ Scenario = dict(seed, mod, entities=[...creation order...], pools=[[n, a]...], u
   entity kinds (ids are assigned in creation order starting at 1; groups take two ids, GroupInput then GroupOutput):
     dict(kind='pfc'|'gate'|'handler'|'processor'|'buffer'|'source'|'sink'|'batcher', up=[ids], ...params)
     dict(kind='group', gid, devices=[ids])        dict(kind='path', gid, up=[ids])       dict(kind='maint', capacity, value)
-  uop = ['shutdown', d] | ['restore', d] | ['fail_at', d, t] | ['block', d, 0/1] | ['adjust', d, z] | ['add_res', n, a] | ['create_wo', m, t, g]
+  uop = ['shutdown', d] | ['restore', d] | ['fail_at', d, t] | ['block', d, 0/1] | ['adjust', d, z] | ['offset', d, z] | ['add_res', n, a] | ['create_wo', m, t, g]
   xop = ['init'] | ['step'] | ['run', d] | ['at', t, k, prio] | ['now', uop]
 All times/values in 1/8 units.
 """
@@ -20,7 +20,7 @@ STEP_LIMIT = 6000
 KINDS = {'pfc': 0, 'gate': 1, 'handler': 2, 'processor': 3, 'buffer': 4, 'source': 5, 'sink': 6, 'batcher': 7,
          'path': 8, 'gin': 9, 'gout': 10}
 CBOPS = {'set_cycle': 0, 'offset_next': 1, 'part_add_value': 2, 'part_set_quality': 3, 'create_wo': 4, 'create_wo_if_failure': 5, 'log': 6}
-UOPS = {'shutdown': 0, 'restore': 1, 'fail_at': 2, 'block': 3, 'adjust': 4, 'add_res': 5, 'create_wo': 6}
+UOPS = {'shutdown': 0, 'restore': 1, 'fail_at': 2, 'block': 3, 'adjust': 4, 'add_res': 5, 'create_wo': 6, 'offset': 7}
 WHICH = {'receive': 0, 'finish': 1, 'shutdown': 2, 'restore': 3}
 LABELS = {'resource_update': 1, 'enter_queue': 2, 'start_work_order': 3, 'finish_work_order': 4,
           'received_part': 6, 'produced_part': 7, 'device_failure': 8, 'level': 9, 'supplied_new_part': 10}
@@ -279,6 +279,8 @@ def run_uop(W, o):
         W.objs[o[1]].block_input = bool(o[2])
     elif k == 'adjust':
         W.objs[o[1]].adjust_part_count(o[2])
+    elif k == 'offset':
+        W.objs[o[1]].offset_next_cycle_time(o[2] / TICK)
     elif k == 'add_res':
         W.rm.add_resources('r%d' % o[1], o[2] / TICK)
     elif k == 'create_wo':
@@ -509,10 +511,14 @@ def run_impl(sc, weights='patch', split=False, reduced=False):
             steps = [0]
             orig_step = env.step
 
+            W.fired = []
+
             def counted_step():
                 steps[0] += 1
                 if steps[0] > STEP_LIMIT:
                     raise TooLong()
+                if env._events and not env._events[0].cancelled:
+                    W.fired.append(act_code(W, env._events[0]))      # the event about to be executed
                 orig_step()
             env.step = counted_step
             orig_add = env.add_datapoint
@@ -522,9 +528,12 @@ def run_impl(sc, weights='patch', split=False, reduced=False):
                 orig_add(label, sub, dp)
             env.add_datapoint = add_datapoint
 
+            W.uoplog = []
+
             def make_user(k):
                 def action():
                     for o in sc['uops'][k]:
+                        W.uoplog.append(list(o))
                         run_uop(W, o)
                 action._verif_act = [8, k]
                 return action
@@ -549,6 +558,7 @@ def run_impl(sc, weights='patch', split=False, reduced=False):
                         elif k == 'at':
                             env.schedule_event(x[1] / TICK, -5, make_user(x[2]), x[3] / PRIO)
                         elif k == 'now':
+                            W.uoplog.append(list(x[1]))
                             run_uop(W, x[1])
                 except ValueError:
                     st = 1
@@ -634,6 +644,10 @@ def observe(W, x, st, devs, pools, new):
     o['queue'] = [[to_ticks(ev.time), ev.asset_id - W.base if ev.asset_id > 0 else ev.asset_id] + act_code(W, ev) + [bool(ev.cancelled)]
                   for ev in env._events]
     o['paused'] = [[to_ticks(ev.time), ev.asset_id - W.base if ev.asset_id > 0 else ev.asset_id] + act_code(W, ev) for ev in env._paused_events]
+    o['uops'] = list(W.uoplog)
+    del W.uoplog[:]
+    o['fired'] = list(W.fired)
+    del W.fired[:]
     o['next_id'] = W.Asset._id_counter - W.base
     o['cblog'] = [list(c) for c in W.cblog]
     o['waiting_res'] = [[cb.__self__.id - W.base, req_list(r)] for r, cb in W.rm._waiting_requests]
